@@ -161,4 +161,12 @@ def run(ctx):
             except S.TooManyPaths:
                 pass
             ctx.oblige("C15|filtered|type-literal", okf and lits_b == {lit_f} == {"public-key"}, "re-emitted type %r (%s) differs from the accepted type %s" % (lit_f, detail, sorted(lits_b)), cfg=cfg)
+        # decode(encode(v)) == v also needs the hand-written decoders to keep what the encoders emit: an icon that fits (C13's
+        # keep/drop rule) and every entry of the filtered lists (C14's one-entry-in, one-entry-out rule)
+        from . import c13, c14
+        from .engine import Probe
+        for mod, lab in ((c13, "lossy text decoders"), (c14, "filtering list decoders")):
+            pr = Probe(facts={cfg: F})
+            mod.run(pr)
+            ctx.oblige("C15|decoder-semantics|" + lab, not pr.failed, "the %s do not give back what the encoder emitted: %s" % (lab, "; ".join("%s: %s" % (k, m[:160]) for k, m in pr.failed[:2])), cfg=cfg)
         ctx.floor("bidirectional types", n_types, 27, cfg=cfg)
